@@ -152,6 +152,45 @@ def maps_in(n, seen=None):
         yield from maps_in(n["target"], seen)
 
 
+def has_merge_inside(n, seen=None):
+    """does the subtree (following aliases) contain a merge key"""
+    if seen is None:
+        seen = set()
+    if id(n) in seen:
+        return False
+    seen.add(id(n))
+    t = n["t"]
+    if t == "mp":
+        return any(k == "<<" or has_merge_inside(v, seen) for k, v in n["es"])
+    if t == "sq":
+        return any(has_merge_inside(x, seen) for x in n["items"])
+    if t == "al":
+        return has_merge_inside(n["target"], seen)
+    return False
+
+
+def alias_targets(n, seen=None):
+    if seen is None:
+        seen = set()
+    t = n["t"]
+    if t == "al":
+        if id(n["target"]) not in seen:
+            seen.add(id(n["target"]))
+            yield n["target"]
+            yield from alias_targets(n["target"], seen)
+    elif t == "mp":
+        for _, v in n["es"]:
+            yield from alias_targets(v, seen)
+    elif t == "sq":
+        for x in n["items"]:
+            yield from alias_targets(x, seen)
+
+
+def unexploded_target_with_merge(root):
+    """some alias (value or merge source) points at a target that itself still needs merging"""
+    return any(has_merge_inside(t) for t in alias_targets(root))
+
+
 def doc_classes(root):
     """Defect classes of KNOWN_FINDINGS.txt that the document can trigger (computed from ground truth)."""
     out = set()
@@ -373,6 +412,9 @@ def judge_doc(doc, truth, paths, rs, ryaml):
             if name == "traverse" and container and r[0] == "ok" and '"<<"' in obs(rs[2 * i])[1]:
                 out.append(("deviation", "subresult-literal-merge", "%s prints a literal << key: %s" % (expr_of(p), obs(rs[2 * i])[1][:120]), p))
                 continue
+            if name == "traverse" and container and r[0] == "ok" and unexploded_target_with_merge(doc):
+                out.append(("deviation", "subresult-nested-merge-dropped", "%s prints %s, the resolved document has %r" % (expr_of(p), obs(rs[2 * i])[1][:120], wv), p))
+                continue
             out.append(("deviation", None, "%s of %s gives %r, the resolved document has %r" % (name, expr_of(p), r[1:] if r[0] == "ok" else r, wv), p))
     ky, vy = obs(ryaml)
     if ky != "ok":
@@ -419,6 +461,9 @@ def replay_known(chk):
     d3 = "a: &a {x: 1}\nb: &b {x: 2, w: 3}\nm: {<<: [*a, *b], z: w}\n"
     if yq_json(d3, ".m.w")[1] == "3" and yq_json(d3, "explode(.) | .m.w")[1] == "null" and '"m":{"x":1,"z":"w"}' in yq_json(d3, ".")[1]:
         chk.known_finding("mergelist-value-text", ".m.w reads 3 but explode(.) drops the key w")
+    d4 = "a2: &a2 {x: 2}\na3: &a3 {<<: *a2}\nr: {y: 1, <<: [*a3]}\n"
+    if yq_json(d4, ".r")[1] == '{"y":1}' and yq_json(d4, "explode(.) | .r")[1] == '{"y":1,"x":2}' and yq_json(d4, ".r.x")[1] == "2":
+        chk.known_finding("subresult-nested-merge-dropped", "-o=json .r prints {\"y\":1}")
     d2 = "c: &c {z: 9}\nd: &d 5\na: &a {<<: *c, x: *d}\nb: *a\n"
     if yq_json(d2, ".b")[1] == '{"<<":{"z":9},"x":5}' and yq_json(d2, "explode(.) | .b")[1] == '{"z":9,"x":5}':
         chk.known_finding("subresult-literal-merge", "-o=json .b prints {\"<<\":{\"z\":9},\"x\":5}")
